@@ -50,6 +50,9 @@ def shards(tier):
 
 def run_stmt(key, backend, acc):
   prefix = f"{backend}:struct-behavioral" if key in stmtfam.STRUCT_BEHAVIORAL else f"{backend}:stmt"
+  if key in stmtfam.SIM_KNOWN_WRONG:
+    acc.count("skipped_simulation_known_wrong")
+    return "skipped"
   if key in stmtfam.MAY_REJECT:
     import pymtl3.dsl.errors as dsl_errors
     try:
